@@ -147,6 +147,13 @@ class CallLog:
         self.calls: list = []
         self.lock = threading.Lock()
 
+    def __getstate__(self):
+        # picklable for process pools: the lock is per process; a file-backed log is shared through the file
+        return {"path": self.path, "calls": [] if self.path else list(self.calls)}
+
+    def __setstate__(self, st):
+        self.path, self.calls, self.lock = st["path"], st["calls"], threading.Lock()
+
     def add(self, name, kw_enc, phase="call"):
         rec = (name, kw_enc, phase, os.getpid())
         with self.lock:
